@@ -22,7 +22,8 @@ TRUSTED = [
     'that every wait follows its issue (hypothesis Hwait) holds by construction of the future-returning API and is '
     'checked structurally by simdist (a future exists only after its issue)',
     'kfac_comm_proj covers the data collectives of hooks, step(), load_state_dict() and memory_usage(); the new_group calls of '
-    'the constructor and the GPT-NeoX paths are covered per observed run by the verified checker proj_ok_b only',
+    'the constructor is covered per observed run by the verified checker proj_ok_b only; GPT-NeoX group creation by C12 '
+    '(new_group_same_order) and GPT-NeoX traffic by proj_ok_b on the logs of every C11 / C18 run',
     'inverse workers given to the model come from a public KAISAAssignment built with the same arguments (C06 / C17); '
     'dtype equality of matching collectives is checked by simdist (not modelled: inst.idtype = 0)',
 ]
@@ -57,6 +58,19 @@ def encode_logs(w, W):
         d = dts.setdefault(dtype, len(dts))
         logs[rank].append([gids[key], KINDS.get(kind, 9), numel, d, 0 if root is None else root + 1])
     return members, logs
+
+
+def check_proj(queue, correspondence, cov):
+    """run the verified global-order checker on the (case, (members, logs)) pairs of other harnesses (GPT-NeoX runs)"""
+    outs = common.run_model_sharded([('proj_ok', [members, [[list(x) for x in l] for l in logs]]) for _, (members, logs) in queue])
+    fails = []
+    for (case, (members, logs)), o in zip(queue, outs):
+        if o == 0:
+            fails.append(Failure(what='no global collective order exists for the observed per-rank logs (proj_ok_b = false)', case=case,
+                                 model='proj_ok_b = true', impl='rejected', oracle_rejects=False, correspondence=correspondence,
+                                 theorems=['proj_ok_sound', 'no_deadlock'], oracle='simdist found no stall under the explored schedule'))
+    cov.extra['logs_accepted_by_proj_ok_b'] = len(queue) - len(fails)
+    return fails
 
 
 def run(tier, seed, rng):
